@@ -5,7 +5,7 @@
    "nothing remains".  [good] packages exactly that. *)
 From Coq Require Import ZArith List Bool.
 From V Require Import Model.Num Model.Status Model.Sim Model.SimLoop Model.Examples
-  Proofs.SimPlaceP Proofs.SimPlaceP2 Proofs.SimTradedP Proofs.SimBucketsP Proofs.SimLiftP Model.SimGuard Proofs.SimRunP.
+  Proofs.SimPlaceP Proofs.SimPlaceP2 Proofs.SimTradedP Proofs.SimBucketsP Proofs.SimLiftP Model.SimGuard Proofs.SimRunP Proofs.SimStaticP.
 Open Scope Z_scope.
 
 Theorem C04_good_is_conserved : forall o, good o ->
@@ -136,6 +136,19 @@ Theorem C04_run_conserves : forall tb cf n sc es s m o,
 Proof. exact run_conserves_b. Qed.
 Print Assumptions C04_run_conserves.
 
+(* THE SAME WITH STATIC HYPOTHESES ONLY.  The dynamic side condition run_guard_b is itself a theorem (Proofs/SimLinkP.v guards_hold): it holds in
+   every run started from markets without orders (initial_b) under a configuration whose matcher ignores pending and completed orders (cfg_ok_b,
+   true of the generated constants), whose books are in the domain with non-negative bet delays (event_b2) and whose script uses every
+   (market, name) once, below the first replacement name (keys_ok_b).  All four are decidable by looking at the scenario. *)
+Theorem C04_run_conserves_static : forall tb cf n sc es s,
+  cfg_ok_b cf = true -> initial_b s = true -> forallb (event_b2 sc n) es = true -> keys_ok_b sc n es = true ->
+  forall m o, In m (s_markets (fold_left (step tb cf n sc) es s)) -> In o (mk_orders m) -> so_type o = TLimit ->
+  so_size o = so_matched o + remaining o + so_cancelled o + so_lapsed o + so_voided o /\
+  0 <= so_matched o /\ 0 <= remaining o /\ 0 <= so_cancelled o /\ 0 <= so_lapsed o /\ 0 <= so_voided o /\
+  so_matched o = frag_sum (so_frags o) /\ frags_pos (so_frags o).
+Proof. exact run_conserves_static. Qed.
+Print Assumptions C04_run_conserves_static.
+
 (* non-vacuity: a run that satisfies both boolean hypotheses and does something - an order placed, partly matched on arrival, partly
    cancelled, then filled passively, a second one replaced: the final buckets are listed *)
 Definition c04_bk (pt : Z) (trd : list (Z * Z)) : book :=
@@ -151,6 +164,7 @@ Definition c04_events : list event :=
    {| ev_market := 1; ev_idx := 4; ev_book := xbook 2500 MClosed 2 [xrunner 1 RActive None [] [] []; xrunner 2 RActive None [] [] []] |}].
 Definition c04_init : sim := sim0 [mkmarket 1 std_static].
 Example C04_run_conserves_example :
+  cfg_ok_b std_cfg = true /\ initial_b c04_init = true /\ forallb (event_b2 c04_script 1) c04_events = true /\ keys_ok_b c04_script 1 c04_events = true /\
   forallb (event_b c04_script 1) c04_events = true /\
   run_guard_b tb_up std_cfg 1 c04_script c04_events c04_init = true /\
   map (fun m => map (fun o => (so_name o, [so_size o; so_matched o; remaining o; so_cancelled o; so_lapsed o; so_voided o]))
